@@ -74,7 +74,7 @@ def pack(fmt, *vals):
                 its = list(_s.pack("<" + ch, v))
             else:
                 if v.lo < lo or v.hi > hi:
-                    if core.cur().branch(core.sym_or(v < lo, v > hi).e):
+                    if bool(core.truth(core.sym_or(v < lo, v > hi))):
                         raise error("argument out of range")
                 import z3
                 e = v.lowbits(8 * size)
